@@ -20,10 +20,20 @@ func Dump(v any) string {
 	return sb.String()
 }
 
+// DumpVisible renders only what a caller in another package can reach without reflection:
+// exported fields, recursively. A difference here is a change every user of the value can see.
+func DumpVisible(v any) string {
+	var sb strings.Builder
+	d := &dumper{seen: map[uintptr]int{}, sb: &sb, visibleOnly: true}
+	d.val(reflect.ValueOf(v), 0)
+	return sb.String()
+}
+
 type dumper struct {
-	seen map[uintptr]int
-	sb   *strings.Builder
-	n    int
+	seen        map[uintptr]int
+	sb          *strings.Builder
+	n           int
+	visibleOnly bool
 }
 
 // access makes a value obtained through an unexported field usable.
@@ -69,6 +79,9 @@ func (d *dumper) val(v reflect.Value, depth int) {
 		t := v.Type()
 		d.sb.WriteString(t.Name() + "{")
 		for i := 0; i < v.NumField(); i++ {
+			if d.visibleOnly && !t.Field(i).IsExported() {
+				continue
+			}
 			f := v.Field(i)
 			if v.CanAddr() {
 				f = access(f)
